@@ -820,6 +820,39 @@ class Monitor:
 		self.trace.append(("t", len(emitted), len(stales), len(entries), len(data_tx)))
 
 	def _match_recipient(self, R, exps, obs, fn, emitted, drop_k):
+		"""Several bursts may share a slot (same frame and timeslot, even the same bits: dummy and
+		frequency-correction bursts are constants).  Which datagram answers which of them is then
+		open; the tick passes if SOME assignment explains everything, so the greedy matcher below
+		is retried over the orders of the entries that share a slot."""
+		slots = {}
+		for e in exps:
+			slots.setdefault((e.b.fn, e.b.tn), []).append(e)
+		if len(exps) < 2 or all(len(v) < 2 for v in slots.values()):
+			return self._match_once(R, exps, obs, fn, emitted, drop_k)
+		import itertools
+		base = len(self.viols)
+		stats0 = dict(self.m.stats)
+		reported0 = {k for k in self.__dict__ if k.startswith("_reported_")}
+		first = None
+		for n, perm in enumerate(itertools.islice(itertools.permutations(exps), 120)):
+			for e in exps:
+				e.matched = None
+			del self.viols[base:]
+			self.m.stats = dict(stats0)
+			for k in [k for k in self.__dict__ if k.startswith("_reported_") and k not in reported0]:
+				delattr(self, k)
+			self._match_once(R, list(perm), obs, fn, emitted, drop_k)
+			if len(self.viols) == base:
+				if n:
+					self.m.probe("slot-assignment-retried")
+				return
+			if first is None:
+				first = list(self.viols[base:])
+		# no assignment explains the tick: report what the natural order gave
+		del self.viols[base:]
+		self.viols.extend(first)
+
+	def _match_once(self, R, exps, obs, fn, emitted, drop_k):
 		m = self.m
 		for kw in obs:
 			if tuple(kw["dst"]) != (R.addr, R.base + 102 + 2 * R.cidx):
